@@ -31,7 +31,7 @@ AXES = {
     'alf_store_samples': [True, False], 'nan': ['none', 'amps', 'similar', 'attrs', 'template', 'template_first_row'],
     'attrs': ['none', 'right', 'wrong_len', 'both'], 'spikeless': ['none', 'first', 'middle', 'last'],
     'dat_path_str': [False, True], 'alf_skew': [False, True],
-    'fortran': [False, True], 'raw_symlink': [False, True], 'dtype_amps': ['float64', 'float32'], 'dtype_templates': ['float32', 'float64'], 'dtype_feat': ['float32', 'float64'],
+    'fortran': [False, True], 'raw_symlink': [False, True], 'ks2_file': [False, True], 'dtype_amps': ['float64', 'float32'], 'dtype_templates': ['float32', 'float64'], 'dtype_feat': ['float32', 'float64'],
 }
 RULE = ('Each case = one generated dataset directory (configuration vector over %d axes: %s) + random '
         'contents, loaded with the real load_model (params path given as str / Path / through a symlink / relative to the working directory; directory names with spaces and non-ASCII characters); every listed public attribute is compared with the '
@@ -115,6 +115,7 @@ def build(case):
         'nan', 'attrs', 'alf_store_samples', 'dat_path_str', 'alf_skew', 'fortran')})
     spec.notes['fortran'] = bool(o['fortran'])
     spec.notes['raw_symlink'] = bool(o['raw_symlink'])
+    spec.notes['ks2_templates_ind'] = bool(o['ks2_file'])
     spec.alf_store_samples = o['alf_store_samples']
     if o['alf_skew'] and o['names'] == 'alf' and spec.alf_store_samples:
         # clock-synchronised seconds: monotonic but not bit-identical to samples / rate
